@@ -2,14 +2,14 @@ package main
 
 import (
 	"fmt"
-	"os"
-	"path/filepath"
-	"time"
 	"go/constant"
 	"go/token"
 	"go/types"
+	"os"
+	"path/filepath"
 	"sort"
 	"strings"
+	"time"
 
 	"golang.org/x/tools/go/ssa"
 )
